@@ -9,6 +9,7 @@ import (
 	"fmt"
 	"math/rand"
 	"os"
+	"runtime"
 	"strconv"
 	"sync"
 	"testing"
@@ -192,6 +193,21 @@ func (r *Run) finish() []Ev {
 // after the epilogue) is reported through leak = true instead of failing the test binary.
 func bubble(t *testing.T, body func(r *Run)) (evs []Ev, leak bool, msg string) {
 	var r *Run
+	// watchdog on the real clock, outside the bubble: a bubble that does not end (a goroutine blocked on a sync.Mutex is
+	// not "durably blocked", so neither synctest.Wait nor the deadlock detector ever fire) is dumped and the process ends
+	// with a marker; the check decides from the dump whether library code is what is stuck.
+	done := make(chan struct{})
+	defer close(done)
+	go func() {
+		select {
+		case <-done:
+		case <-time.After(time.Duration(envInt("VH_BUBBLE_TIMEOUT", 90)) * time.Second):
+			buf := make([]byte, 1<<20)
+			n := runtime.Stack(buf, true)
+			fmt.Fprintf(os.Stderr, "\nBUBBLE-STUCK: a bubble did not end within its real-time limit\n%s\n", buf[:n])
+			os.Exit(3)
+		}
+	}()
 	func() {
 		defer func() {
 			if p := recover(); p != nil {
